@@ -10,7 +10,6 @@ import (
 	"os/exec"
 	"path/filepath"
 	"strings"
-	"sync"
 	"time"
 )
 
@@ -61,8 +60,9 @@ func parseStatus(out string) string {
 	return "unknown"
 }
 
-// Solve runs the solvers on the script. In race mode the first sat/unsat answer wins.
-func Solve(file string, timeout time.Duration, all bool, which []string) *SolveResult {
+// Solve runs the solvers on the full script and, if given, on the instantiated (QF) variant.
+// An unsat answer from either is a proof; only a sat answer on the full script is a counterexample.
+func Solve(file, qfFile string, timeout time.Duration, all bool) *SolveResult {
 	ctx, cancel := context.WithTimeout(context.Background(), timeout+2*time.Second)
 	defer cancel()
 	type ans struct {
@@ -70,27 +70,29 @@ func Solve(file string, timeout time.Duration, all bool, which []string) *SolveR
 		status string
 		out    string
 		secs   float64
+		qf     bool
 	}
-	ch := make(chan ans, len(solvers))
-	var wg sync.WaitGroup
-	n := 0
+	type run struct {
+		s    solverSpec
+		file string
+		qf   bool
+	}
+	var runs []run
 	for _, s := range solvers {
-		if len(which) > 0 {
-			ok := false
-			for _, w := range which {
-				if w == s.name {
-					ok = true
-				}
-			}
-			if !ok {
+		runs = append(runs, run{s, file, false})
+	}
+	if qfFile != "" {
+		for _, s := range solvers {
+			if s.name == "cvc5" {
 				continue
 			}
+			runs = append(runs, run{s, qfFile, true})
 		}
-		n++
-		wg.Add(1)
-		go func(s solverSpec) {
-			defer wg.Done()
-			argv := s.argv(file, timeout)
+	}
+	ch := make(chan ans, len(runs))
+	for _, r := range runs {
+		go func(r run) {
+			argv := r.s.argv(r.file, timeout)
 			t0 := time.Now()
 			cmd := exec.CommandContext(ctx, argv[0], argv[1:]...)
 			var buf bytes.Buffer
@@ -101,43 +103,42 @@ func Solve(file string, timeout time.Duration, all bool, which []string) *SolveR
 			if ctx.Err() != nil && st != "sat" && st != "unsat" {
 				st = "timeout"
 			}
-			ch <- ans{s.name, st, buf.String(), time.Since(t0).Seconds()}
-		}(s)
+			name := r.s.name
+			if r.qf {
+				name += "+inst"
+			}
+			ch <- ans{name, st, buf.String(), time.Since(t0).Seconds(), r.qf}
+		}(r)
 	}
 	res := &SolveResult{Status: "unknown", All: map[string]string{}}
-	got := 0
-	for got < n {
+	for got := 0; got < len(runs); got++ {
 		a := <-ch
-		got++
 		res.All[a.solver] = a.status
-		if a.status == "sat" || a.status == "unsat" {
+		decisive := a.status == "unsat" || (a.status == "sat" && !a.qf)
+		if decisive {
 			if res.Status != "sat" && res.Status != "unsat" {
 				res.Status, res.Solver, res.Seconds, res.Output = a.status, a.solver, a.secs, a.out
 				if !all {
 					cancel()
+					break
 				}
 			} else if res.Status != a.status {
 				res.Status = "error"
 				res.Output += "\nSOLVER DISAGREEMENT: " + a.solver + " says " + a.status
 			}
-		} else if res.Status == "unknown" {
-			if a.status == "timeout" {
+			continue
+		}
+		if res.Status == "unknown" || res.Status == "timeout" {
+			if a.status == "timeout" && !a.qf {
 				res.Status = "timeout"
 			}
 			if a.secs > res.Seconds {
 				res.Seconds = a.secs
 			}
-			if res.Output == "" || a.status == "error" {
+			if !a.qf && (res.Output == "" || a.status == "error") {
 				res.Output = a.out
 			}
 		}
-		if !all && (res.Status == "sat" || res.Status == "unsat") {
-			break
-		}
-	}
-	go func() { wg.Wait() }()
-	if res.Status == "timeout" && (res.All["z3"] == "error" || res.All["z3-new"] == "error" || res.All["cvc5"] == "error") {
-		// keep timeout but remember the error output
 	}
 	return res
 }
